@@ -2139,6 +2139,14 @@ class PseudoNetCDFFile(PseudoNetCDFSelfReg, object):
 
         if anyisarray:
             for ni, newdim in enumerate(newdims):
+                if newdim in self.dimensions:
+                    # e.g., a second pointwise selection on a file that
+                    # already has POINTS: its variables would end up with
+                    # the new dimension twice or with a stale length
+                    raise ValueError(
+                        ('The file already has a dimension %s; name the ' +
+                         'dimension of this selection with newdims') %
+                        newdim)
                 outf.createDimension(newdim, arrayshape[ni])
 
         if verbose == 1:
